@@ -292,13 +292,16 @@ class DisciplineJacApprox:
             raise ValueError(msg)
 
         # The inputs that are not differentiated keep their current values
-        # (the function generated from the discipline reads them from the defaults).
+        # (the function generated from the discipline reads them from the defaults),
+        # except the ones that are also outputs, e.g. the coupling variables of an MDA,
+        # whose current values are the results of the last execution.
         defaults = self.discipline.io.input_grammar.defaults
         original_defaults = dict(defaults)
+        output_grammar = self.discipline.io.output_grammar
         defaults.update({
             name: value
             for name, value in self.discipline.io.get_input_data().items()
-            if name not in input_names
+            if name not in input_names and name not in output_grammar
         })
         try:
             with self.__set_zero_cache_tol():
